@@ -230,10 +230,18 @@ Proof.
   inversion Hrest; subst. exact Hstep.
 Qed.
 
-Lemma ast_parse_remitted : forall root m t, ast_parse root m = Ok t -> t = annotate_at root (remitted m).
+Lemma ast_parse_ok : forall root m t, ast_parse root m = Ok t -> t = annotate_at root m.
 Proof.
-  intros root m t H. unfold ast_parse in H. destruct (supported m); [|discriminate].
-  unfold remitted. destruct (ast_parse_remit m) as [m'|e]; simpl in H; [|discriminate]. inversion H. reflexivity.
+  intros root m t H. unfold ast_parse in H. destruct (supported m); [|discriminate]. inversion H. reflexivity.
+Qed.
+
+Lemma domain_supported_in : forall x, C14_domain x = true -> supported (ci_in x) = true.
+Proof.
+  intros x H. unfold C14_domain in H.
+  repeat match goal with
+         | [ H0 : _ && _ = true |- _ ] => apply andb_true_iff in H0; destruct H0
+         end.
+  assumption.
 Qed.
 
 Lemma find_view_none_log : forall root q m,
@@ -253,28 +261,28 @@ Qed.
 
 Lemma pair_class_facts : forall x ip op,
     ci_eval x = false -> pair_class x ip op = None ->
-    finding_class_C15 (remitted (ci_in x)) (dotted ip) = None
-    /\ first_hit_list (dotted op) (annotate_at [0] (remitted (ci_out x)))
-       = option_map fst (resolve_at [0] (dotted op) (remitted (ci_out x))).
+    finding_class_C15 (ci_in x) (dotted ip) = None
+    /\ first_hit_list (dotted op) (annotate_at [0] (ci_out x))
+       = option_map fst (resolve_at [0] (dotted op) (ci_out x)).
 Proof.
   intros x ip op Hev H. unfold pair_class in H. rewrite Hev in H.
-  destruct (finding_class_C15 (remitted (ci_in x)) (dotted ip)) eqn:E1; [discriminate|].
+  destruct (finding_class_C15 (ci_in x) (dotted ip)) eqn:E1; [discriminate|].
   split; [reflexivity|].
-  destruct (rw_finding_class_at [0] (remitted (ci_out x)) (dotted op)) eqn:E2; [discriminate|].
+  destruct (rw_finding_class_at [0] (ci_out x) (dotted op)) eqn:E2; [discriminate|].
   unfold rw_finding_class_at in E2.
-  destruct (const_hazard (dotted op) (annotate_at [0] (remitted (ci_out x)))); [discriminate|].
-  destruct (first_hit_list (dotted op) (annotate_at [0] (remitted (ci_out x)))) as [h|];
-    destruct (resolve_at [0] (dotted op) (remitted (ci_out x))) as [[p n]|]; simpl; try reflexivity; try discriminate.
+  destruct (const_hazard (dotted op) (annotate_at [0] (ci_out x))); [discriminate|].
+  destruct (first_hit_list (dotted op) (annotate_at [0] (ci_out x))) as [h|];
+    destruct (resolve_at [0] (dotted op) (ci_out x)) as [[p n]|]; simpl; try reflexivity; try discriminate.
   - destruct (path_eqb h p) eqn:Ep; [|discriminate]. apply path_eqb_eq in Ep. subst. reflexivity.
   - destruct n as [m0|s0|a0]; try discriminate. destruct s0; discriminate.
 Qed.
 
 Theorem C14_partial_lemma : forall x, guard_C14 x = true -> C14_holds x.
 Proof.
-  intros x Hg. unfold guard_C14 in Hg. apply andb_true_iff in Hg. destruct Hg as [_ Hg].
+  intros x Hg. unfold guard_C14 in Hg. apply andb_true_iff in Hg. destruct Hg as [Hdom Hg].
+  pose proof (domain_supported_in x Hdom) as Hsup.
   destruct (finding_class_C14 x) eqn:Ec; [discriminate|]. clear Hg.
   unfold finding_class_C14 in Ec.
-  destruct (docstring_of (ci_out x)); [discriminate|].
   destruct (ci_eval x) eqn:Hev; [discriminate|].
   unfold C14_holds.
   destruct (ci_ips x) as [|ip [|ip2 ips]] eqn:Eips; simpl; try exact I;
@@ -284,14 +292,14 @@ Proof.
   (* what a write implies *)
   assert (Hwrite : forall tree, fst (run_C14 x) = [EvWrite FOutput tree] ->
             exists o_mid st p,
-              is_mid (annotate_at [0] (remitted (ci_out x))) o_mid
+              is_mid (annotate_at [0] (ci_out x)) o_mid
               /\ first_hit_list (dotted op) o_mid = Some p
               /\ replaced_first (dotted op) (rw_node st) p o_mid tree
-              /\ exists n log, find_in_ast_log (dotted ip) (annotate_at [1] (remitted (ci_in x))) = Ok (Some n, log)).
+              /\ exists n log, find_in_ast_log (dotted ip) (annotate_at [1] (ci_in x)) = Ok (Some n, log)).
   { intros tree Hw.
     destruct (C14_frame_lemma x FOutput tree) as [_ [_ [i0 [o0 [i' [Hi [Ho [_ Hsteps]]]]]]]].
     { rewrite Hw. left. reflexivity. }
-    apply ast_parse_remitted in Hi. apply ast_parse_remitted in Ho. subst i0 o0.
+    apply ast_parse_ok in Hi. apply ast_parse_ok in Ho. subst i0 o0.
     rewrite Eips, Eops in Hsteps.
     assert (Hz : exists e, zip3 [ip] [op] (ci_evs x) = [(ip, op, e)]).
     { destruct (ci_evs x); simpl; eexists; reflexivity. }
@@ -307,14 +315,14 @@ Proof.
     + exfalso. destruct (Hwrite tree eq_refl) as [o_mid [st [p [Hmid [Hfh [_ [n [log Hfind]]]]]]]].
       destruct Hunres as [Hu|[_ Hu]].
       * rewrite (first_hit_mid _ _ _ Hmid), Hout, Hu in Hfh. discriminate.
-      * pose proof (C15_partial_at [1] _ _ Hin) as Hv. rewrite Hu in Hv.
+      * pose proof (C15_partial_at [1] _ _ Hsup Hin) as Hv. rewrite Hu in Hv.
         destruct (find_view_none_log _ _ _ Hv) as [log' Hn]. rewrite Hn in Hfind. discriminate.
   - (* a write *)
     intros tree Hw. destruct (Hwrite tree Hw) as [o_mid [st [p [Hmid [Hfh [Hrf [n [log Hfind]]]]]]]].
     rewrite (first_hit_mid _ _ _ Hmid), Hout in Hfh.
-    destruct (resolve_at [0] (dotted op) (remitted (ci_out x))) as [[p' n']|] eqn:Eres; simpl in Hfh; [|discriminate].
+    destruct (resolve_at [0] (dotted op) (ci_out x)) as [[p' n']|] eqn:Eres; simpl in Hfh; [|discriminate].
     inversion Hfh; subst p'.
     exists p, n', o_mid, st. repeat split; try assumption.
-    intros _. pose proof (C15_partial_at [1] _ _ Hin) as Hv.
+    intros _. pose proof (C15_partial_at [1] _ _ Hsup Hin) as Hv.
     rewrite (find_view_some_log _ _ _ _ _ Hfind) in Hv. inversion Hv as [Hv']. eexists. reflexivity.
 Qed.
